@@ -548,7 +548,7 @@ Proof.
     - apply (proj1 (Forall_forall _ _) Hcov). assumption. }
   unfold stream_of. rewrite (enc_syms_emit bits vals diffs w_init [] F Hdok winv_init).
   (* the T.81 encoder *)
-  unfold t81_encode.
+  unfold t81_encode, t81_encode_x.
   assert (Hchk : ((1 <=? w) && (w <=? 65535) && (1 <=? h) && (h <=? 65535) && (1 <=? comps) && (comps <=? 4)
            && (2 <=? P) && (P <=? 16) && (1 <=? pred) && (pred <=? 7)
            && (Z.of_nat (length (repeat 0 (Z.to_nat comps))) =? comps)
@@ -558,8 +558,7 @@ Proof.
            && forallb (fun v => v <? 2 ^ P) (t81_samples P pixels)
            && forallb (fun t => (0 <=? fst t) && (fst t <=? 3) && t81_table_ok (fst (snd t)) (snd (snd t))) [(0, (bits, vals))]
            && t81_distinct (map fst [(0, (bits, vals))])
-           && forallb (fun e => (((224 <=? fst e) && (fst e <=? 239)) || (fst e =? 254))
-                                && (Z.of_nat (length (snd e)) <? 65534)) [(224, jfif_payload)]) = true).
+           && forallb t81_extra_ok [(224, jfif_payload)] && forallb t81_extra_ok []) = true).
   { rewrite !andb_true_iff. repeat match goal with |- _ /\ _ => split end; try (apply Z.leb_le; lia); try (apply Z.ltb_lt; lia).
     - rewrite repeat_length. apply Z.eqb_eq. lia.
     - destruct Hc; subst comps; reflexivity.
@@ -574,6 +573,7 @@ Proof.
       { unfold t81_samples, samples_of. destruct (P <=? 8); [reflexivity | apply le_pairs_le16; assumption]. }
       rewrite Hsamp in Hv. apply (proj1 (Forall_forall _ _) Hs) in Hv. apply Z.ltb_lt. lia.
     - cbn [forallb fst snd]. rewrite Hok. reflexivity.
+    - reflexivity.
     - reflexivity.
     - reflexivity. }
   rewrite Hchk. cbn [negb].
